@@ -43,6 +43,7 @@ def check(ctx, tier):
     tk.purity("C05.p", [ctx.func(q) for q in ['raggedarray.RaggedArray.sum', 'raggedarray.RaggedArray.prod', 'raggedarray.RaggedArray.mean', 'raggedarray.RaggedArray.all', 'raggedarray.RaggedArray.any', 'raggedarray.RaggedArray.max', 'raggedarray.RaggedArray.min', 'raggedarray.RaggedArray.argmax', 'raggedarray.RaggedArray.argmin', 'raggedarray.RaggedArray._reduce']], "the operation does not write into its operands' buffers", content_only=True)
     from .. import hazards as _hz, scopes as _sc
     _hz.generic(ctx, tk, "C05.z", _sc.scope(tk, "C05", depth=1))
+    _hz.h27_positional_arguments_dropped(ctx, tk, "C05.z/H27", [f_ for f_ in (ctx.program.funcs.get(q_) for q_ in ['arrayfunctions.get_ra_func']) if f_ is not None])
     _hz.h19_raw_identity_store(ctx, tk, "C05.z/H19", [ctx.func("raggedarray.RaggedArray._reduce")])
     _hz.h21_default_dtype_result(ctx, tk, "C05.z/H21", [ctx.func("raggedarray.RaggedArray._reduce")])
     return {}
@@ -384,6 +385,18 @@ def mean_rules(ctx, tk):
                 bad.append(kind)
         ctx.decide("C05.e", m, what, not bad, "for %s arrays the division is reached without the conversion: the mean is cast back to %s" % (
             "/".join(bad), "/".join(bad)), node=conv[0].ast, key="float-conversion", engine="E1")
+        # the total itself is taken from the converted data: a sum computed before the conversion runs in the integer type
+        # (int64 totals wrap where numpy's mean accumulates in float64)
+        sums = [n for n, c in find_calls(fa, lambda c: c.a[0].k == "attr" and c.a[0].a[1] == "sum")]
+        early = []
+        for kind in ("signed", "unsigned"):
+            reach = reachable_under(fa, kind, subj, avoid=conv)
+            early += [n for n in sums if n.id in reach and kind not in [k for k, _n in early]]
+            early = [(kind, n) if not isinstance(n, tuple) else n for n in early]
+        ctx.decide("C05.e", m, "the total that mean divides is computed from the float-converted data", False if early else (True if sums else None),
+                   "`%s` is computed before the conversion to float for %s data: totals beyond the 64-bit range wrap" % (
+                       ast.unparse(early[0][1].ast)[:80] if early else "", "/".join(sorted({k for k, _ in early}))), node=(early[0][1].ast if early else conv[0].ast),
+                   key="sum-after-conversion", engine="E1")
     # divisor agreement: axis 0 -> col_counts(), rows -> lengths
     for r in fa.cfg.returns():
         tm = fa.term(r.ast.value, r)
